@@ -153,6 +153,7 @@ def step (cfg : Cfg) (st : St) : List String → St × String
   | ["guts", "set", slot, param, val] =>
     match slot.toNat?, param.toNat?, val.toNat? with
     | some s, some p, some v =>
+      if p ≥ 4294967296 then (st, "bad-op") else     -- `param: u32`
       match getSlot st.guts s with
       | none => (st, "bad-op")
       | some g =>
@@ -163,6 +164,7 @@ def step (cfg : Cfg) (st : St) : List String → St × String
   | ["guts", "get", slot, param] =>
     match slot.toNat?, param.toNat? with
     | some s, some p =>
+      if p ≥ 4294967296 then (st, "bad-op") else     -- `param: u32`
       match getSlot st.guts s with
       | none => (st, "bad-op")
       | some g =>
